@@ -14,4 +14,5 @@ let () =
   | [| _; "c05" |] -> Drv_c05.run stdin stdout
   | [| _; "c18" |] -> Drv_c18.run stdin stdout
   | [| _; "c06" |] -> Drv_c06.run stdin stdout
+  | [| _; "c07" |] -> Drv_c07.run stdin stdout
   | _ -> prerr_endline "usage: driver <model>  (script on stdin)"; exit 2
